@@ -94,7 +94,7 @@ class C05(ProgCheck):
                     cases.append(Case("c%d" % n, "", "|".join(ops), {"node": True, "expr": how + " " + ex, "family": "copy", "nomodel": True}))
         # (b) random programs with alias emphasis
         for k in range(300 if quick else 5000):
-            g = progen.Gen(self.rng, nvars=2, funcs=(k % 2 == 0), errors=0.05)
+            g = progen.Gen(self.rng, nvars=2, funcs=(k % 2 == 0), errors=0.05, tables=(0.3 if k % 3 == 1 else 0.0))
             prog = g.program(nstmts=self.rng.randint(4, 8), depth=2)
             # alias candidates: copy every variable, mutate the original, print both
             tail = []
@@ -104,6 +104,19 @@ class C05(ProgCheck):
                          ("let", a, {"i": ("bin", "ADD", ("var", a), I(1)), "d": ("bin", "MUL", ("var", a), L("D:4000000000000000")),
                                      "b": ("un", "BNOT", ("var", a)), "s": ("bin", "ADD", ("var", a), S("!"))}[t]),
                          ("print", [("var", a), S("|"), ("var", b)])]
+            if g.ptab > 0:
+                # containers: copy the table, change the original in place and through an iterator, print both
+                for t in "is":
+                    a, b = "T%s1" % t.upper(), "T%s2" % t.upper()
+                    x = {"i": I(41), "s": S("zz")}[t]
+                    tail += [("let", b, ("var", a)), ("do", ("member", "concat", ("var", a), [x])),
+                             ("do", ("member", "put", ("var", a), [I(0), x])),
+                             ("forall", "%sQ" % t.upper(), ("var", a), "auto", [("let", "%sQ" % t.upper(), x)]),
+                             ("print", [("member", "count", ("var", a), []), S("|"), ("member", "count", ("var", b), [])]),
+                             ("forall", "%sR" % t.upper(), ("var", b), "auto", [("print", [("var", "%sR" % t.upper())])]),
+                             ("let", a, ("call", "tab", [I(2), ("member", "at", ("var", b), [I(0)])])),
+                             ("do", ("member", "put", ("var", a), [I(1), x])),
+                             ("forall", "%sR" % t.upper(), ("var", b), "desc", [("print", [("var", "%sR" % t.upper())])])]
             n += 1
             cases.append(self.prog_case("c%d" % n, prog + tail, {"family": "random"}))
         self.stats["cases"] = n
